@@ -158,6 +158,10 @@ pub mod ax {
     // TRUSTED: Option<Rc<T>>::as_deref borrows the shared value (Rc's Deref)
     pub broadcast axiom fn as_deref_rc<T>(o: &Option<Rc<T>>)
         ensures #[trigger] super::stdspec::as_deref_spec::<Rc<T>>(o) == (match *o { Some(rc) => Some(&*rc), None => None });
+//# section: ax-trim
+    // TRUSTED: trimming is idempotent (std: str::trim removes leading and trailing white space)
+    pub broadcast axiom fn trim_idempotent(s: Seq<char>)
+        ensures #[trigger] super::stdspec::trim_spec(super::stdspec::trim_spec(s)) == super::stdspec::trim_spec(s);
 //# section: ax-end
 }
 //# section: stdspec-begin
@@ -300,6 +304,11 @@ pub mod stdspec {
     #[verifier::allow(undeclared_external_trait)]
     pub assume_specification<P: core::str::pattern::Pattern> [str::starts_with::<P>] (s: &str, p: P) -> (r: bool)
         ensures r == starts_with_spec::<P>(s@, p);
+//# section: stdspec-trim
+    // `trim_spec(s)`: the result of str::trim (a function of the text)
+    pub uninterp spec fn trim_spec(s: Seq<char>) -> Seq<char>;
+    pub assume_specification [str::trim] (s: &str) -> (r: &str)
+        ensures r@ == trim_spec(s@);
 //# section: stdspec-rsplit-once
     pub uninterp spec fn rsplit_once_spec<P>(s: Seq<char>, p: P) -> Option<(Seq<char>, Seq<char>)>;
     #[verifier::allow(undeclared_external_trait)]
